@@ -495,6 +495,15 @@ structure Frame where
   objs : List Nat
 deriving Repr, Inhabited
 
+/-- a host function running in another thread holds the upgraded (strong) pointer of a handle -/
+structure Pin where
+  root : Bool
+  cell : Nat
+  call : Nat
+  obj : Nat
+  depth : Nat
+deriving Repr, Inhabited
+
 structure LState where
   memory : List (Nat × Nat) := []
   weak : List (Nat × Nat) := []
@@ -504,6 +513,7 @@ structure LState where
   nextCall : Nat := 0
   nextObj : Nat := 0
   vals : List ((Nat × Nat) × Nat) := []
+  pins : List Pin := []              -- host calls on a handle that are running in another thread
   staleRootOk : Bool := false        -- a use of a lent handle succeeded after its call had returned
   staleAnyOk : Bool := false         -- the same for any handle, derived ones included
   aliasViol : Bool := false          -- mutable access through a handle while a handle derived from it was live
@@ -521,19 +531,27 @@ inductive Op where
   | getro (h c : Nat)
   | set (h c v : Nat)
   | derive (h c : Nat) (k : Kind)
+  | pinUse (h c : Nat)     -- another thread enters a `&mut self` host function on the handle ...
+  | unpinUse               -- ... and that function returns
 deriving Repr, Inhabited
+
+/-- operations that need a second thread -/
+def Op.isThread : Op → Bool
+  | .pinUse _ _ | .unpinUse => true
+  | _ => false
 
 inductive LOut where
   | handles (hs : List Nat) | copy (c : Nat) | val (v : Nat) | unit | err (e : Err) | bad (why : String)
-deriving Repr, Inhabited
+deriving DecidableEq, Repr, Inhabited
 
 def LState.active (s : LState) (c : Nat) : Bool := s.frames.any (fun f => f.id == c)
 
 /-- can the weak pointer of the handle still be upgraded -/
 def LState.alive (s : LState) (h : Handle) : Bool :=
-  match h.parent with
-  | none => s.memory.any (fun e => e.1 == h.cell)
-  | some _ => s.weak.any (fun e => e.1 == h.cell)
+  (match h.parent with
+   | none => s.memory.any (fun e => e.1 == h.cell)
+   | some _ => s.weak.any (fun e => e.1 == h.cell)) ||
+  s.pins.any (fun p => p.root == h.parent.isNone && p.cell == h.cell)
 
 def Handle.live (h : Handle) : Bool := !h.copies.isEmpty
 
@@ -695,6 +713,31 @@ def lstep (pol : Policy) (s : LState) : Op → LState × LOut
               handles := (s.handles.set i ph) ++ [child]
               nextCell := s.nextCell + 1 },
             .handles [s.handles.length])
+  | .pinUse i c =>
+    match s.handles[i]? with
+    | none => (s, .bad "no-copy")
+    | some h =>
+      if !h.copies.contains c then (s, .bad "no-copy")
+      else
+        match mutCheck s h with
+        | .error e => (s, .err e)
+        | .ok _ =>
+          ({ s.noteAccess i h true with
+              pins := { root := h.parent.isNone, cell := h.cell, call := h.call, obj := h.obj, depth := h.depth } :: s.pins },
+            .unit)
+  | .unpinUse =>
+    match s.pins with
+    | [] => (s, .bad "no-thread")
+    | p :: ps =>
+      -- the access ends now: it was running until this moment
+      ({ s with
+          pins := ps
+          staleRootOk := s.staleRootOk || (p.root && !s.active p.call)
+          staleAnyOk := s.staleAnyOk || !s.active p.call },
+        .val (s.valOf p.obj p.depth))
+
+/-- no operation of the sequence needs a second thread -/
+def singleThreaded (ops : List Op) : Bool := ops.all (fun o => !o.isThread)
 
 def lrun (pol : Policy) (s : LState) (ops : List Op) : LState :=
   ops.foldl (fun s o => (lstep pol s o).1) s
